@@ -134,6 +134,18 @@ Section Interp.
     let s := upd3 s ix1 iy1 iz1 (rx * ry * rz) in
     s.
 
+  (* the eight write targets of point_source, in source order *)
+  Definition pv_targets (gx : Z -> F) (nx : Z) (gy : Z -> F) (ny : Z)
+             (gz : Z -> F) (nz : Z) (x y z : F) : list (Z * Z * Z) :=
+    let ix := pv_index gx nx x in
+    let iy := pv_index gy ny y in
+    let iz := pv_index gz nz z in
+    let ix1 := snd (idx_strength ix nx x gx) in
+    let iy1 := snd (idx_strength iy ny y gy) in
+    let iz1 := snd (idx_strength iz nz z gz) in
+    (ix, iy, iz) :: (ix1, iy, iz) :: (ix, iy1, iz) :: (ix1, iy1, iz) ::
+    (ix, iy, iz1) :: (ix1, iy, iz1) :: (ix, iy1, iz1) :: (ix1, iy1, iz1) :: nil.
+
   (* --------------------------------------------------------------- grid *)
   (* A tensor grid is given by its three node vectors (n+1 entries each);
      cell centres are (nodes[1:] + nodes[:-1]) / 2. *)
@@ -221,6 +233,10 @@ Section Interp.
   Definition comp_source (el : bool) (c : Z) (x y z : F) : Z -> Z -> Z -> F :=
     point_source (cg el c 0 ndx) (cn el c 0 nx) (cg el c 1 ndy) (cn el c 1 ny)
                  (cg el c 2 ndz) (cn el c 2 nz) x y z zero3.
+
+  Definition comp_targets (el : bool) (c : Z) (x y z : F) : list (Z * Z * Z) :=
+    pv_targets (cg el c 0 ndx) (cn el c 0 nx) (cg el c 1 ndy) (cn el c 1 ny)
+               (cg el c 2 ndz) (cn el c 2 nz) x y z.
 
   (* None = ValueError("Provided source outside grid").  el = true is
      emg3d.fields._point_vector; el = false is the same construction on the
